@@ -16,18 +16,72 @@ From Helm Require Import Engine.Types Engine.Ops Engine.Decisions Engine.Decisio
 Import ListNotations.
 Local Open Scope string_scope.
 
-(* lengths are not negative *)
-Ltac pose_lens m Hwf :=
+(* the facts of [env_wf] about the variables that occur in the goal *)
+Ltac pose_facts m Hwf :=
+  let Hlen := fresh "Hlen" in let Hnil := fresh "Hnil" in let Hhas := fresh "Hhas" in let Hzero := fresh "Hzero" in
+  destruct Hwf as (Hlen & Hnil & Hhas & Hzero);
+  (* a lookup that finds nothing yields "" *)
+  repeat match goal with
+  | |- context [m_str m ?p] =>
+      lazymatch goal with
+      | _ : m_b m _ = false -> m_str m p = _ |- _ => fail
+      | _ => let H := fresh "Hz" in pose proof (Hzero p) as H; cbv [has_of append] in H
+      end
+  end;
+  (* nil has length 0 *)
+  repeat match goal with
+  | |- context [m_nil m ?x] =>
+      lazymatch goal with
+      | _ : m_nil m x = true -> _ |- _ => fail
+      | _ => let H := fresh "Hn" in pose proof (Hnil x) as H; cbv [len_of append] in H
+      end
+  end;
+  (* an empty map has no key *)
+  repeat match goal with
+  | |- context [m_n m ?l] =>
+      lazymatch eval vm_compute in (is_len l) with
+      | true =>
+          let x := eval vm_compute in (unlen l) in
+          match goal with
+          | |- context [m_b m ?y] =>
+              lazymatch eval vm_compute in (has_key x y) with
+              | true =>
+                  lazymatch goal with
+                  | _ : m_n m l = 0%Z -> m_b m y = false |- _ => fail
+                  | _ => let H := fresh "Hh" in pose proof (Hhas x y eq_refl) as H; cbv [len_of append] in H
+                  end
+              end
+          | _ : context [m_b m ?y] |- _ =>
+              lazymatch eval vm_compute in (has_key x y) with
+              | true =>
+                  lazymatch goal with
+                  | _ : m_n m l = 0%Z -> m_b m y = false |- _ => fail
+                  | _ => let H := fresh "Hh" in pose proof (Hhas x y eq_refl) as H; cbv [len_of append] in H
+                  end
+              end
+          end
+      end
+  end;
+  (* lengths are not negative *)
   repeat match goal with
   | |- context [m_n m ?x] =>
       lazymatch eval vm_compute in (is_len x) with
       | true =>
           lazymatch goal with
           | _ : (0 <= m_n m x)%Z |- _ => fail
-          | _ => pose proof (Hwf x eq_refl)
+          | _ => pose proof (Hlen x eq_refl)
           end
       end
-  end.
+  | _ : context [m_n m ?x] |- _ =>
+      lazymatch eval vm_compute in (is_len x) with
+      | true =>
+          lazymatch goal with
+          | _ : (0 <= m_n m x)%Z |- _ => fail
+          | _ => pose proof (Hlen x eq_refl)
+          end
+      end
+  end;
+  clear Hlen Hnil Hhas Hzero.
 
 (* the assumptions of the function: equations are rewritten, bounds are kept *)
 Ltac use_pre Hpre :=
@@ -69,31 +123,57 @@ Ltac split_fin :=
   | x : bool |- _ => destruct x
   end.
 
+(* after the case split: use the implications whose premise is decided *)
+Ltac settle :=
+  repeat match goal with
+  | H : ?x = ?x -> _ |- _ => specialize (H eq_refl)
+  | H : true = false -> _ |- _ => clear H
+  | H : false = true -> _ |- _ => clear H
+  | H : ?t = EmptyString |- _ => subst t
+  end.
+
+Ltac item_core :=
+  let m := fresh "m" in
+  let Hwf := fresh "Hwf" in
+  let Hpre := fresh "Hpre" in
+  intros m Hwf Hpre; unfold mvalue; autounfold with dec; cbv beta;
+  simpl deval; unfold err_is_key; simpl;
+  use_pre Hpre; simpl;
+  first [ apply (f_equal (fun b => Some (VB b))) | apply (f_equal (fun z => Some (VN z))) ];
+  pose_facts m Hwf;
+  repeat match goal with H : context [m] |- _ => revert H end;
+  gen_atoms m; clear m; intros; split_fin; settle; unfold vstr_ltb, vstr_eqb in *; simpl;
+  try reflexivity;
+  fold vstr_eqb; fold vstr_ltb;
+  repeat match goal with
+  | |- context [String.eqb ?a ?b] => let v := fresh "q" in generalize (String.eqb a b); intro v
+  | |- context [str_ltb ?a ?b] => let v := fresh "q" in generalize (str_ltb a b); intro v
+  end;
+  split_fin; simpl; try reflexivity;
+  repeat match goal with |- context [if ?c then _ else _] => let E := fresh "E" in destruct c eqn:E end;
+  try reflexivity; lia.
+
 Ltac item_tac :=
   lazymatch goal with
   | |- item_ok ?pre ?it ?g =>
       first
-        [ solve
-            [ let m := fresh "m" in
-              let Hwf := fresh "Hwf" in
-              let Hpre := fresh "Hpre" in
-              intros m Hwf Hpre; unfold mvalue; autounfold with dec; cbv beta;
-              simpl deval; unfold err_is_key; simpl;
-              use_pre Hpre; simpl;
-              first [ apply (f_equal (fun b => Some (VB b))) | apply (f_equal (fun z => Some (VN z))) ];
-              pose_lens m Hwf; clear Hwf;
-              repeat match goal with H : (0 <= m_n m _)%Z |- _ => revert H end;
-              gen_atoms m; clear m; gen_strs; intros; split_fin; simpl; try reflexivity;
-              repeat match goal with |- context [if ?c then _ else _] => let E := fresh "E" in destruct c eqn:E end;
-              try reflexivity; lia ]
+        [ solve [ item_core ]
         | fail 1 "DEC: an item of the Go function no longer means what the model says:" g ]
+  end.
+
+Ltac in_tac := repeat first [ left; reflexivity | right ].
+
+(* one of the candidates (the Go items of that class) means what the model says *)
+Ltac cand_tac all l :=
+  lazymatch l with
+  | ?c :: ?t => first [ solve [ exists c; split; [ in_tac | item_core ] ] | cand_tac all t ]
+  | _ => fail "DEC: no item of this class of the Go function means what the model says any more; the Go source has:" all
   end.
 
 Ltac items_tac :=
   lazymatch goal with
   | |- True => exact I
-  | |- item_ok _ _ (DUnknown "no such item") /\ _ => fail "DEC: the Go function has no such item any more"
-  | |- _ /\ _ => split; [ item_tac | items_tac ]
+  | |- (exists g, In g ?l /\ _) /\ _ => split; [ cand_tac l l | items_tac ]
   end.
 
 Ltac fn_tac :=
@@ -103,12 +183,11 @@ Ltac fn_tac :=
       change (fn_ok gt fm);
       cbv [fn_ok fn_name fn_pre fn_items items_ok];
       repeat match goal with
-      | |- context [go_item gt f ?k] =>
-          let g := eval vm_compute in (go_item gt f k) in
+      | |- context [go_items gt f ?k] =>
+          let g := eval vm_compute in (go_items gt f k) in
           lazymatch g with
-          | DUnknown "no such item" => fail 2 "DEC: the Go function" f "has no item" k "any more"
-          | DUnknown "no such function" => fail 2 "DEC: the Go function" f "is not in the table"
-          | _ => change (go_item gt f k) with g
+          | nil => fail 2 "DEC: the Go function" f "has no item" k "any more (or the function itself is gone)"
+          | _ => change (go_items gt f k) with g
           end
       end;
       items_tac
@@ -193,7 +272,7 @@ Qed.
 (* ---- the readable form of [table_ok] ---------------------------------------------------------- *)
 
 Lemma items_ok_in gt f pre l : items_ok gt f pre l ->
-  forall k it, In (k, it) l -> item_ok pre it (go_item gt f k).
+  forall k it, In (k, it) l -> exists g, In g (go_items gt f k) /\ item_ok pre it g.
 Proof.
   induction l as [|[k0 it0] t IH]; intros H k it Hin; [contradiction|].
   destruct H as [H0 Ht]. destruct Hin as [E|Hin]; [injection E as <- <-; exact H0 | exact (IH Ht k it Hin)].
@@ -201,8 +280,8 @@ Qed.
 
 Lemma decision_item_agrees_lemma fm k it :
   In fm model -> In (k, it) (fn_items fm) ->
-  forall m : menv, env_wf m -> all_hold m (map fst (fn_pre fm)) ->
-    deval m (go_item decisions (fn_name fm) k) = Some (mvalue it m).
+  exists g, In g (go_items decisions (fn_name fm) k) /\
+    forall m : menv, env_wf m -> all_hold m (map fst (fn_pre fm)) -> deval m g = Some (mvalue it m).
 Proof.
   intros Hfm Hk. pose proof decisions_table_ok as H. unfold table_ok in H. rewrite Forall_forall in H.
   exact (items_ok_in _ _ _ _ (H fm Hfm) k it Hk).
@@ -211,7 +290,7 @@ Qed.
 (* the assumptions are satisfiable: the all-default environment meets those of every function,
    so every listed item exists in the generated table and evaluates *)
 Lemma env0_wf : env_wf env0.
-Proof. intros x _. apply Z.le_refl. Qed.
+Proof. unfold env_wf. repeat split; intros; try reflexivity; apply Z.le_refl. Qed.
 
 Lemma assumptions_satisfiable_lemma : Forall (fun fm => all_hold env0 (map fst (fn_pre fm))) model.
 Proof. repeat constructor; vm_compute; discriminate. Qed.
@@ -239,7 +318,9 @@ Lemma rejects_off_by_one_lemma :
     deval m (DNot (DLt (DVar TN "len(History)") (DVar TN "arg2"))) <> Some (VB (p_rlr_prune m)).
 Proof.
   exists (set_n "len(History)" 3%Z (set_n "arg2" 3%Z env0)). split; [|vm_compute; discriminate].
-  intros x _. unfold set_n, upd; simpl. repeat destruct (String.eqb _ _); vm_compute; discriminate.
+  repeat split; intros; try reflexivity.
+  - unfold set_n, upd; simpl. repeat destruct (String.eqb _ _); vm_compute; discriminate.
+  - discriminate.
 Qed.
 
 (* an expression the translator could not read never meets an obligation; an opaque atom
@@ -253,7 +334,7 @@ Proof.
   intros H.
   specialize (H (mkEnv (fun _ => false) (fun _ => SUnknown) (fun _ => 0%Z) (fun _ => TestHook) (fun _ => BeforeHookCreation)
                        (fun _ => "") (fun _ => false) (fun _ => false) (fun _ => false) (fun _ => true))
-                (fun x _ => Z.le_refl 0) I).
+                ltac:(repeat split; intros; try reflexivity; try discriminate; apply Z.le_refl) I).
   vm_compute in H. discriminate.
 Qed.
 
@@ -262,7 +343,7 @@ Qed.
 Lemma accepts_flattened_lemma :
   item_ok [ANonNeg "arg2"] (IB p_rlr_pick)
     (DAnd (DAnd (DNot (DLe (DVar TN "len(History)") (DVar TN "arg2")))
-                (DNot (DEq (DSub (DVar TN "len(sorted(History))") (DVar TN "len(toDelete)")) (DVar TN "arg2"))))
+                (DNot (DEq (DSub (DVar TN "len(sorted(History))") (DVar TN "len(new([]Release))")) (DVar TN "arg2"))))
           (DNot (DAnd (DNot (DNil "Deployed"))
                       (DEq (DVar TN "each(sorted(History)).version") (DVar TN "Deployed.version"))))).
 Proof. item_tac. Qed.
